@@ -8,6 +8,7 @@ fn main() {
         "c01" => rt.block_on(osv::e2e::c01::run(&a)),
         "c02" => rt.block_on(osv::e2e::c02::run(&a)),
         "c06" => rt.block_on(osv::e2e::c06::run(&a)),
+        "c07" => rt.block_on(osv::e2e::c07::run(&a)),
         "c09" => rt.block_on(osv::e2e::c09::run(&a)),
         "c10" => rt.block_on(osv::e2e::c10::run(&a)),
         "c11" => rt.block_on(osv::e2e::c11::run(&a)),
